@@ -4,18 +4,33 @@ NAME = "SpinLock"
 
 ORD = {"Relaxed": "relaxed", "Acquire": "acquire", "Release": "release", "AcqRel": "acqRel", "SeqCst": "seqCst"}
 
+def _one(kind, hits):
+    if len(hits) != 1:
+        raise Exception("spinlock.rs: expected exactly one %s operation on `locked`, found %r" % (kind, hits))
+    return hits[0]
+
+
 def extract(repo):
+    import sys
+    sys.path.insert(0, os.path.dirname(os.path.abspath(__file__)))
+    import _rustfn as R
     src = open(os.path.join(repo, "src", "spinlock.rs")).read()
-    cas = re.findall(r"compare_exchange(?:_weak)?\(\s*(true|false)\s*,\s*(true|false)\s*,\s*Ordering::(\w+)\s*,\s*Ordering::(\w+)\s*\)", src)
-    lock = [c for c in cas if c[0] == "false" and c[1] == "true"]
-    unlock = [c for c in cas if c[0] == "true" and c[1] == "false"]
-    if len(cas) != 2 or len(lock) != 1 or len(unlock) != 1:
-        raise Exception("spinlock.rs: expected exactly one lock CAS (false->true) and one unlock CAS (true->false), found %r" % (cas,))
-    # the lock loop must spin until the CAS succeeds, the guard's drop must perform the unlock
-    if not re.search(r"pub fn lock\(&self\)[^{]*\{\s*while\s+self\s*\.locked\s*\.compare_exchange", src):
-        raise Exception("spinlock.rs: lock() is no longer `while self.locked.compare_exchange(..).is_err() {}`")
-    if not re.search(r"fn drop\(&mut self\)\s*\{\s*while\s+self\s*\.__lock\s*\.locked\s*\.compare_exchange", src):
-        raise Exception("spinlock.rs: SpinLockGuard::drop no longer releases with a CAS loop")
+    # the ACQUIRING operation: inside `fn lock`, in a loop, a CAS false->true (strong or weak) or a swap(true); its orderings
+    lock_body, _ = R.fn_body(src, "lock")
+    if not re.search(r"\b(while|loop)\b", lock_body):
+        raise Exception("spinlock.rs: lock() no longer spins in a loop")
+    acq = [(m.group(1), m.group(2)) for m in re.finditer(
+        r"compare_exchange(?:_weak)?\(\s*false\s*,\s*true\s*,\s*Ordering::(\w+)\s*,\s*Ordering::(\w+)\s*\)", lock_body)]
+    acq += [(m.group(1), m.group(1)) for m in re.finditer(r"\.swap\(\s*true\s*,\s*Ordering::(\w+)\s*\)", lock_body)]
+    lock = _one("acquiring", acq)
+    # the RELEASING operation: inside the guard's `fn drop`: a CAS true->false, a store(false) or a swap(false)
+    drop_body, _ = R.fn_body(src, "drop")
+    rel = [(m.group(1), m.group(2)) for m in re.finditer(
+        r"compare_exchange(?:_weak)?\(\s*true\s*,\s*false\s*,\s*Ordering::(\w+)\s*,\s*Ordering::(\w+)\s*\)", drop_body)]
+    rel += [(m.group(1), m.group(1)) for m in re.finditer(r"\.(?:store|swap)\(\s*false\s*,\s*Ordering::(\w+)\s*\)", drop_body)]
+    unlock = _one("releasing", rel)
+    lock = [("false", "true", lock[0], lock[1])]
+    unlock = [("true", "false", unlock[0], unlock[1])]
     item = open(os.path.join(repo, "src", "item.rs")).read()
     # only the ItemPool part
     pool_src = item[item.index("pub struct ItemPool"):item.index("pub struct ItemPoolGuard")]
